@@ -12,17 +12,25 @@ SIZES = [1, 70000, 10 * 1024 * 1024]
 
 
 def _setup(env, key, sit):
-    """sit: 0 unpinned, 1 pinned to the presented certificate, 2 pinned to another one, 3 unreadable certificate"""
+    """sit: 0 unpinned, 1 pinned to the presented certificate, 2 pinned to another one, 3 unreadable certificate,
+    4 pinned, peer presents a different certificate that is also expired, 5 unpinned and the certificate is expired,
+    6 pinned to the (not yet valid) certificate that is presented"""
     if sit == 1:
         env.pin(key[0], key[1], 0)
-    elif sit == 2:
+    elif sit == 2 or sit == 4:
         env.pin(key[0], key[1], 1)
-    env.cert_for[key] = "bad" if sit == 3 else 0
+    elif sit == 6:
+        env.pin(key[0], key[1], 4)
+    env.cert_for[key] = "bad" if sit == 3 else 3 if sit in (4, 5) else 4 if sit == 6 else 0
+
+
+def _must_fail(sit):
+    return sit in (2, 3, 4)
 
 
 def order(sit: int, entry: int, q: int, tk: int, si: int) -> bool:
     """
-    pre: 0 <= sit <= 3 and 0 <= entry <= 3 and 0 <= si <= 2
+    pre: 0 <= sit <= 6 and 0 <= entry <= 3 and 0 <= si <= 2
     pre: is_qchar(q) and is_qchar(tk) and tk != 0x3b
     pre: admit("C11.order", sit=sit, entry=entry)
     post: _
@@ -44,14 +52,17 @@ def order(sit: int, entry: int, q: int, tk: int, si: int) -> bool:
     t = env.conns[0]
     if t.rx_before_verify != 0:
         return V(False)                    # request bytes left before the pin check had passed
-    if sit >= 2:
+    if _must_fail(sit):
         return V(res is None and exc is not None and t.total_rx() == 0)
-    return V(res is not None and t.total_rx() > 0)
+    # otherwise either the call succeeds (after verification) or it is refused without a byte sent
+    if res is None:
+        return V(t.total_rx() == 0)
+    return V(t.total_rx() > 0)
 
 
 def redirect_second_hop(sit2: int, q: int) -> bool:
     """
-    pre: 0 <= sit2 <= 3 and is_qchar(q)
+    pre: 0 <= sit2 <= 6 and is_qchar(q)
     pre: admit("C11.redirect_second_hop", sit2=sit2)
     post: _
     """
@@ -65,9 +76,9 @@ def redirect_second_hop(sit2: int, q: int) -> bool:
     t2 = env.conns[1]
     if env.conns[0].rx_before_verify != 0 or t2.rx_before_verify != 0:
         return V(False)
-    if sit2 >= 2:
+    if _must_fail(sit2):
         return V(res is None and exc is not None and t2.total_rx() == 0)
-    return V(res is not None)
+    return V(res is not None or t2.total_rx() == 0)
 
 
 META = {
@@ -87,7 +98,7 @@ FN = ["GeminiClientProtocol.connection_made", "TitanClientProtocol.connection_ma
       "delete", "_get_with_redirects", "TOFUDatabase.verify", "trust"]
 OBLIGATIONS = [
     Ob("order", order, quick=400, thorough=1200,
-       symbolic="pin situation (unpinned / same / changed / unreadable), entry point (get, get with query, upload with token, delete), "
+       symbolic="pin situation (unpinned / same / changed / unreadable / changed+expired / unpinned+expired / pinned not-yet-valid), entry point (get, get with query, upload with token, delete), "
                 "query character, token character (any query-safe ASCII code point), upload size class (1 B, 70 kB, 10 MiB)",
        functions=FN, stubs=["scripted peer transport", "ModelSQL", "MiniLoop"]),
     Ob("redirect_second_hop", redirect_second_hop, quick=300, thorough=900,
